@@ -49,6 +49,7 @@ def extraJson : TableParse.Extra → Json
   | .none => Json.mkObj []
   | .optional b => Json.mkObj [("optional", b)]
   | .append b => Json.mkObj [("append", b)]
+  | .implicit => Json.mkObj [("optional", true), ("silent", true)]
 
 def actionJson (a : TableParse.Action) : Json :=
   Json.mkObj [("cmd", ofStr a.cmd), ("args", ofStrs a.args), ("extra", extraJson a.extra)]
